@@ -409,23 +409,42 @@ func c10Senders(c *Ctx) {
 			c.Unk("C10.B5-senders", "announce/httpsender."+pth.fn, token.NoPos, "not found")
 			continue
 		}
-		var addCall, encCall *CallSite
-		for _, cs := range c.Calls(f.SSA, Any()) {
-			cs := cs
-			if cs.In.Common().StaticCallee() == add && add != nil {
-				addCall = &cs
+		var addOuter ssa.Instruction
+		var addMsg *X
+		var encCall *CallSite
+		gated := true
+		for _, st := range c.CallsInl(f.SSA, Any(), 2) {
+			if st.In.Common().StaticCallee() != add || add == nil {
+				continue
 			}
-			if _, m := Match(pth.enc, cs.X); m {
-				encCall = &cs
+			addOuter = st.Outer()
+			addMsg = st.X.Args[1]
+			// every helper on the way returns nil only when the inner call returned nil
+			inner := st.In
+			for i := len(st.Via) - 1; i >= 0; i-- {
+				helper := inner.Parent()
+				ierr := c.E(inner.(*ssa.Call))
+				for _, b := range helper.Blocks {
+					if ret, ok := b.Instrs[len(b.Instrs)-1].(*ssa.Return); ok && len(ret.Results) > 0 && c.RetX(ret, len(ret.Results)-1).Op == "nil" {
+						if _, g := c.GuardedB(b, EqNil(Is(ierr)), true); !g {
+							gated = false
+						}
+					}
+				}
+				inner = st.Via[i]
 			}
 		}
-		ok := addCall != nil && encCall != nil && Precedes(addCall.In, encCall.In)
+		for _, cs := range c.Calls(f.SSA, pth.enc) {
+			cs := cs
+			encCall = &cs
+		}
+		ok := addOuter != nil && encCall != nil && gated && Precedes(addOuter, encCall.In)
 		if ok {
-			_, ok = c.Guarded(encCall.In, EqNil(Is(c.Result(*addCall, 0))), true)
+			_, ok = c.Guarded(encCall.In, EqNil(Is(c.E(addOuter.(*ssa.Call)))), true)
 		}
 		// same message variable
 		if ok {
-			m1 := addCall.X.Args[1]
+			m1 := addMsg
 			var m2 *X
 			if pth.what == "CBOR" {
 				m2 = encCall.X.Args[0]
@@ -434,20 +453,31 @@ func c10Senders(c *Ctx) {
 			}
 			ok = (m1.V != nil && m1.V == m2.V) || (m1.Cell != nil && m1.Cell == m2.Cell) || Same(m1, m2) || (m2.Cell != nil && m1.V == ssa.Value(m2.Cell)) || (m1.Cell != nil && m2.V == ssa.Value(m1.Cell))
 		}
-		c.Check(ok, "C10.B5-senders", f.Name+" › ID appended, then the same message encoded as "+pth.what, f.SSA.Pos(), "addIDToAddrs(&msg) succeeds before msg is encoded", "the message put on the wire is not the one the publisher ID was appended to (or encoding precedes it)")
-		// extra-data rule
+		c.Check(ok, "C10.B5-senders", f.Name+" › ID appended, then the same message encoded as "+pth.what, f.SSA.Pos(), "the ID-appending routine succeeds on &msg before msg is encoded", "the message put on the wire is not the one the publisher ID was appended to (or encoding precedes it)")
+		// extra-data rule (in the function or in a same-package helper it calls)
 		rule := ""
-		instrs(f.SSA, func(in ssa.Instruction) {
-			if st, ok := in.(*ssa.Store); ok {
-				if a := c.E(st.Addr); a.Op == "field" && a.Name == "ExtraData" {
-					v := c.E(st.Val)
-					rule = v.String()
-					for _, fct := range c.FactsAt(st.Block()) {
-						rule += " if " + factString(fct)
+		var scan func(g *ssa.Function, d int)
+		scan = func(g *ssa.Function, d int) {
+			instrs(g, func(in ssa.Instruction) {
+				if st, ok := in.(*ssa.Store); ok {
+					if a := c.E(st.Addr); a.Op == "field" && a.Name == "ExtraData" {
+						v := c.E(st.Val)
+						rule = v.String()
+						for _, fct := range c.FactsAt(st.Block()) {
+							if fct.Cond.Contains(func(y *X) bool { return y.Op == "field" && y.Name == "extraData" }) {
+								rule += " if " + factString(fct)
+							}
+						}
 					}
 				}
-			}
-		})
+				if ci, ok := in.(ssa.CallInstruction); ok && d > 0 {
+					if sc := ci.Common().StaticCallee(); samePkgBody(g, sc) && sc.Parent() == nil {
+						scan(sc, d-1)
+					}
+				}
+			})
+		}
+		scan(f.SSA, 2)
 		extraRule = append(extraRule, rule)
 	}
 	c.Check(len(extraRule) == 2 && extraRule[0] == extraRule[1] && extraRule[0] != "", "C10.B5-senders", "httpsender Send ≍ SendJson › extra data", token.NoPos, "both paths: "+strings.Join(extraRule[:1], ""), "CBOR and JSON send paths apply different extra-data rules: "+strings.Join(extraRule, " | "))
